@@ -94,6 +94,12 @@ func c14Alphabet(full bool) []c14Op {
 	for _, g := range gs {
 		ops = append(ops, c14Op{Kind: "garbage", Sess: 0, Garbage: g})
 	}
+	// ... and something going wrong, or a login succeeding, in the OTHER session (what ends one session must not
+	// touch another one's outstanding challenge)
+	ops = append(ops, c14Op{Kind: "garbage", Sess: 1, Garbage: "not-base64"})
+	if !full {
+		ops = append(ops, c14Op{Kind: "auth", Sess: 1, Claimed: "bob", Pw: c14DB["bob"], Chal: "cur"})
+	}
 	ops = append(ops, c14Op{Kind: "clock"})
 	return ops
 }
